@@ -76,7 +76,14 @@ fn check_order<T: Ord + PartialOrd + Eq + std::fmt::Debug + Sync>(ty: &str, vals
                 for (c, _ec) in vals.iter() {
                     l.transitions += 1;
                     // transitivity on the implementation's own answers
-                    if ab != Ordering::Greater && b.cmp(c) != Ordering::Greater && a.cmp(c) == Ordering::Greater {
+                    let (bc, ac) = match catch(|| (b.cmp(c), a.cmp(c))) {
+                        Ok(x) => x,
+                        Err(p) => {
+                            l.viol(viol(&format!("panic:{}", ty), format!("{} triple {:?} {:?} {:?}", ty, short(a), short(b), short(c)), "no panic".into(), p));
+                            continue;
+                        }
+                    };
+                    if ab != Ordering::Greater && bc != Ordering::Greater && ac == Ordering::Greater {
                         l.viol(viol(&format!("transitivity:{}", ty), format!("{} triple {:?} {:?} {:?}", ty, short(a), short(b), short(c)), "a <= c".into(), "a > c".into()));
                     }
                 }
